@@ -5,6 +5,11 @@ ROOT = os.path.dirname(os.path.dirname(os.path.abspath(__file__)))
 BASE_OFF = "cd /repo && env -u BUIDL_VERIF_TRACE /venv/bin/python -m pytest -ra -q -p no:cacheprovider --timeout=900 --continue-on-collection-errors"
 
 CLAIMED = {
+ "C20": dict(
+   text="TLC explores BCURMulti.parse as the code's loop against an adversary that feeds parts of two payloads, corrupted fragments and lying part counts in any order and multiplicity (accepted => exactly the honest in-order part list of the returned payload) and checks the chunking law for all lengths/chunk sizes in a range; recorded bc32, CBOR and BCUR calls (every CBOR length-prefix boundary, many payload-length x chunk-size pairs, all permutations/omissions for small part counts, foreign parts, single-character corruptions of parts and digests) are decided by TLC evaluating the bc32 polymod, bit regrouping, CBOR and chunk slicing.",
+   design="3/C20",
+   note="Trusted: TLC, BCUR.tla / Bech32.tla, hashlib for sha256 rows; payload contents sampled, 70000-byte payloads in the thorough tier only.",
+   technique="TLA+ reassembly state machine model-checked by TLC + TLC evaluation of recorded codec/chunking calls"),
  "C19": dict(
    text="TLC explores the envelope parser as a state machine over every stream an adversary derives from honest envelopes of a small universe (each truncation, each single-byte corruption, trailing bytes, inflated length) and checks round trip and rejection; recorded serialize/parse calls of envelopes (all networks, commands of 0..12 bytes, every truncation point and single-byte corruption of sampled envelopes), compact-size and fixed-width integers across every width boundary, block headers and each fixed-layout message are decided by TLC evaluating the protocol layouts in P2P.tla.",
    design="3/C19",
